@@ -35,6 +35,7 @@ import GM.Props.Convert
 import GM.Props.Consts.Ext
 import GM.Props.ConvertX
 import GM.Props.C16E2E
+import GM.Props.ConvertL
 
 namespace GM.Props.C11
 open GM GM.InlineLoop GM.Proof.InlineLoop
@@ -513,5 +514,75 @@ theorem footnote_inline_declines_concrete : type_of% @GM.Props.C16E2E.footnote_i
 /-- (re-export of `GM.Props.C16E2E.footnote_transformer_without_list_concrete`) `footnote_transformer_without_list` on the composed model: without a FootnoteList in the context the transformer
     returns the document as it is (footnote.go:217-219) -/
 theorem footnote_transformer_without_list_concrete : type_of% @GM.Props.C16E2E.footnote_transformer_without_list_concrete := @GM.Props.C16E2E.footnote_transformer_without_list_concrete
+
+/-- (re-export of `GM.Props.ConvertX.convertx_conservative_strikethrough`) `convertx_conservative_strikethrough` — C11 AT WHOLE-DOCUMENT LEVEL on the model, for EVERY member set (TaskList / Table on or
+    off): a source without `~` converts to the same HTML — or the same error outcome — with and without Strikethrough, for
+    every renderer option set and Unicode class assignment. Composed from: (1) the strikethrough parser is never consulted
+    (`lineLoopX_eq2`: the open-table loop does not look at a table entry whose byte does not occur in the source; the peeked
+    lines are slices of the source by the loop invariant of the totality proof, GM.Proof.ConvertXTotal); (2) no `~` delimiter
+    ever stands among `parent`'s children (`NT`, kept by every parser of the table), and on such children ProcessDelimiters and
+    the link parser over both delimiter processors ARE the default ones (`processDelimitersG_NT`, `parseLinkG_eq`), so the
+    loops over the two tables are equal step by step (`lineLoopX_sim` with the identity relabelling); (3) a member set without
+    Strikethrough never builds the representation of a Strikethrough node (`parseBlockG_fix`: its inline phase simulates itself
+    under the relabelling that moves the levels −3 / −4, so its result is a fixed point), hence decoding does not depend on the
+    flag; (4) the renderer reads `Exts` only through `handled`, on a tree without Strikethrough nodes. -/
+theorem convertx_conservative_strikethrough : type_of% @GM.Props.ConvertX.convertx_conservative_strikethrough := @GM.Props.ConvertX.convertx_conservative_strikethrough
+
+/-- (re-export of `GM.Props.ConvertX.convertx_conservative_tasklist_all`) `ConservativeTasklist`, proved: the same for EVERY member set (Strikethrough on, too): the checkbox parser is never
+    consulted (`lineLoopX_eq2` on the open table with the contracts of GM.Proof.ConvertXTotal), and a member set without
+    TaskList never builds the representation of a TaskCheckBox (`parseBlockG_fixS`: the inline phase of any member set simulates
+    itself under a relabelling that fixes the levels its members build) -/
+theorem convertx_conservative_tasklist_all : type_of% @GM.Props.ConvertX.convertx_conservative_tasklist_all := @GM.Props.ConvertX.convertx_conservative_tasklist_all
+
+/-- (re-export of `GM.Props.ConvertL.convertl_off_is_convertx`) `convertl_off_is_convertx`. Without Linkify the extended model IS `convertX` of the remaining member set — every source,
+    option set, class assignment; guarded and unguarded. With `convertx_off_is_core`: all four off = `convertCore`. -/
+theorem convertl_off_is_convertx : type_of% @GM.Props.ConvertL.convertl_off_is_convertx := @GM.Props.ConvertL.convertl_off_is_convertx
+
+/-- (re-export of `GM.Props.ConvertL.convertx_gfm_is_members`) `convertx_gfm_is_members` (C11, last clause, on the model): `extension.GFM` is its four members. ON THE MODEL THIS IS BY
+    CONSTRUCTION: `convertGFM` is defined as `convertL` with all four flags — justified by gfm.go:13-18, whose `Extend` calls
+    exactly `Linkify.Extend`, `Table.Extend`, `Strikethrough.Extend`, `TaskList.Extend` (GM.Props.C11.facts_gfm_members proves
+    that of the regenerated source facts). What the tie adds: on every document of member set 15 (quick: ≈ 20k, thorough ≈ 10×)
+    component `convertx` converts with a REAL `goldmark.New(WithExtensions(extension.GFM))` instance and with the real
+    four-member instance and compares the HTML byte for byte (clause `gfm-differs-from-members`: 0), and compares the latter
+    with `convertL gfmCfg`. -/
+theorem convertx_gfm_is_members : type_of% @GM.Props.ConvertL.convertx_gfm_is_members := @GM.Props.ConvertL.convertx_gfm_is_members
+
+/-- (re-export of `GM.Props.ConvertL.convertl_conservative_strikethrough`) Strikethrough: a source without `~` converts to the same HTML / outcome with and without it — whatever the other three
+    members, Linkify among them (whose trigger set contains `~`: on such a source its entry of `~` is never consulted
+    either). The proofs of GM.Props.ConvertX over `inlineTblL`: the Linkify parser keeps the loop's contract, keeps "no `~`
+    delimiter among the children" and commutes with every relabelling of emphasis levels. -/
+theorem convertl_conservative_strikethrough : type_of% @GM.Props.ConvertL.convertl_conservative_strikethrough := @GM.Props.ConvertL.convertl_conservative_strikethrough
+
+/-- (re-export of `GM.Props.ConvertL.convertl_conservative_tasklist`) TaskList: a source without `[` -/
+theorem convertl_conservative_tasklist : type_of% @GM.Props.ConvertL.convertl_conservative_tasklist := @GM.Props.ConvertL.convertl_conservative_tasklist
+
+/-- (re-export of `GM.Props.ConvertL.convertl_conservative_table`) Table: a source without '-' -/
+theorem convertl_conservative_table : type_of% @GM.Props.ConvertL.convertl_conservative_table := @GM.Props.ConvertL.convertl_conservative_table
+
+/-- (re-export of `GM.Props.ConvertL.gfm_without_triggers_is_linkify`) `extension.GFM` on a source without `~`, `[` and '-' is Linkify alone -/
+theorem gfm_without_triggers_is_linkify : type_of% @GM.Props.ConvertL.gfm_without_triggers_is_linkify := @GM.Props.ConvertL.gfm_without_triggers_is_linkify
+
+/-- (re-export of `GM.Props.ConvertL.convertx_conservative_linkify_partial`) `convertx_conservative_linkify`, parser level, on the CONCRETE loop (composes the decline argument of
+    GM.Props.C11.linkify_declines for the accept-path model): whatever the state — children, open labels, delimiters —, when
+    the peeked line has no ':', no '@' and no `www.`, `(*linkifyParser).Parse` returns nil and leaves the children, the id
+    counter and the link-bottom stack exactly as they are; only the reader's line cache may be filled (PeekLine). -/
+theorem convertx_conservative_linkify_partial : type_of% @GM.Props.ConvertL.convertx_conservative_linkify_partial := @GM.Props.ConvertL.convertx_conservative_linkify_partial
+
+/-- (re-export of `GM.Props.ConvertL.convertl_linkify_is_flush`) `convertl_linkify_is_flush` (C11 for Linkify, whole documents, what IS proved): on a source without ':', '@' and `www.`,
+    for every member set, option set and class assignment, `convertL` with Linkify is `convertFlush` — the same pipeline with
+    a parser in Linkify's place that returns nil and touches nothing (GM.ConvertX.nullParser). In EVERY consultation of every
+    run of the inline loop of every block the peeked line is a piece of the source, so `(*linkifyParser).Parse` returns nil
+    and leaves reader, children, delimiters and link bottoms as they are (loop level: `linkify_consultation_without_effect`).
+    What remains of Linkify on such a document is the consultation itself: Advance, the flush of the pending text
+    (parser.go:1203-1211), SetPosition. -/
+theorem convertl_linkify_is_flush : type_of% @GM.Props.ConvertL.convertl_linkify_is_flush := @GM.Props.ConvertL.convertl_linkify_is_flush
+
+/-- (re-export of `GM.Props.ConvertL.linkify_consultation_without_effect`) the loop-level statement: the inline loop of a block whose lines pass the run-time check, over the trigger table with
+    Linkify, is the loop over the table with `nullParser` in its place -/
+theorem linkify_consultation_without_effect : type_of% @GM.Props.ConvertL.linkify_consultation_without_effect := @GM.Props.ConvertL.linkify_consultation_without_effect
+
+/-- (re-export of `GM.Props.ConvertL.conservative_linkify_iff_flush_insensitive`) what is missing for `ConservativeLinkify`, exactly: that the consultation flush does not change the HTML of such a
+    document -/
+theorem conservative_linkify_iff_flush_insensitive : type_of% @GM.Props.ConvertL.conservative_linkify_iff_flush_insensitive := @GM.Props.ConvertL.conservative_linkify_iff_flush_insensitive
 
 end GM.Props.C11
